@@ -449,6 +449,23 @@ def r_relink(ctx, rule='R-RELINK'):
                 ctx.check(good, rule, '%s/changed-child#%d' % (f.path, n), '%s:%d' % (f.span['file'], paths.block_line(f, b)),
                           'a changed child id always leads to the parent being rewritten',
                           'in `%s` the parent split can be left untouched although the id of one child changed (line %d): the new child node becomes unreachable and the old link dangles' % (f.path, paths.block_line(f, b)))
+        # what the walker hands back to its parent is its own id or the id the recursion returned for the surviving child --
+        # never the link as it was stored before the recursion (that node may just have been removed or replaced)
+        removes = [c for c in f.calls() if c.callee == 'parallel::TmpNodes::<DE>::remove']
+        nret = 0
+        for b, k, t in (paths.ret_assigns(f) if removes else ()):
+            if k != 'ok':
+                continue
+            nret += 1
+            pay = strip(dict(strip(t)[3]).get('0', ('unknown',))) if strip(t)[0] == 'agg' else ('unknown',)
+            if pay[0] != 'tuple' or not pay[1]:
+                continue
+            idt = pay[1][0]
+            own = root(idt)[0] == 'arg' and not any(y[0] == 'call' for y in walk(idt))
+            fresh = any(paths.mentions_call(idt, r.bb) for r in rec)
+            ctx.check(own or fresh, rule, '%s/returned-id#%d' % (f.path, nret), '%s:%d' % (f.span['file'], paths.block_line(f, b)),
+                      'returns its own id or the id returned by the recursion on the surviving child',
+                      'in `%s` the id handed back to the parent (line %d) is a link read before the recursion, not the id the recursion returned: the parent would point to a node that was just removed or replaced' % (f.path, paths.block_line(f, b)))
     ctx.floor(rule, 'new-vs-old child comparisons', n, 2)
 
 
